@@ -1,9 +1,21 @@
-(* Props/C14.v — custom bases and start indices are a pure relabelling.  Statements only.
-   (The table isomorphism and multivector-level theorems of Theory/Relabel.v are added when that file
-   is part of the build.)  Already available from Theory/SignBits.v: every theorem of C01-C05 is proved
-   for every WELL-FORMED algebra - custom generator order, permuted blade spellings, any order within a
-   grade, any start index - so a custom basis satisfies exactly the same Clifford relations. *)
-From KV Require Import Model.All Theory.WF Theory.SignBits.
+(* Props/C14.v — custom bases and start indices are a pure relabelling.  Statements only; proofs in
+   Theory/Relabel.v (on top of Theory/Sign.v, Theory/SignBits.v, Theory/Product.v, Theory/Ops.v).
+
+   A is the algebra with the custom basis (reordered generators, permuted blade spellings such as e31,
+   any order within a grade, any start index), D any other well-formed algebra with the same signature
+   list and start index - the intended D is the default-basis algebra mk_default (a_sig A) (a_start A) _
+   (C14_default_is_instance), but nothing uses that: the statements are symmetric.
+     phi(e_I of A) := the ORDERED PRODUCT in D of the generators of A's spelling of I
+                    = phi_sign A D I * e_(phi_key A D I) of D      (C14_phi_is_ordered_product)
+   Every theorem: every dimension, signature over {1,-1,0}, start index, admissible basis
+   (wf_alg, decidable), every commutative ring of coefficients, all duplicate-free in-range key lists.
+   The dual-type operators (hodge, unhodge, polarity, unpolarity, dual, undual, rp) commute with phi up
+   to the orientation o = phi_sign A D (pss_key A) of the custom pseudoscalar, as C05 forces
+   (E ^ hodge E = pss).  Not here: inverse/division (partial as C07), matrix representation (known
+   finding F10) and the rejection clause (dataclass equality) are handled elsewhere. *)
+From Coq Require Import Ring_theory Permutation.
+From KV Require Import Model.All Theory.WF Theory.Words Theory.Sign Theory.Sparse Theory.Product Theory.Ops
+  Theory.SignBits Theory.OpsWF Theory.Relabel.
 Local Open Scope Z_scope.
 
 (* the three named constructors are well-formed instances *)
@@ -22,3 +34,188 @@ Theorem C14_named_blade_is_ordered_product : forall A, wf_alg A = true -> forall
   fold_left (fun '(s, k) g => (s * sgn A k (genbit A g), Z.lxor k (genbit A g))) n (1, 0) = (1, B).
 Proof. exact sgn_ordered_product. Qed.
 Print Assumptions C14_named_blade_is_ordered_product.
+
+(* ... and the ordered product of ANY duplicate-free spelling n of generators is +-1 times the blade with
+   the same generator set: the key is the OR of the generator keys, the sign is the parity of the
+   permutation between n and the table's own spelling (difference of inversion parities) *)
+Theorem C14_ordered_product_any_spelling : forall A, wf_alg A = true ->
+  forall n, NoDup n -> (forall g, In g n -> In g (alg_vecs A)) ->
+  0 <= name_key A n < alg_len A /\
+  Permutation n (nm A (name_key A n)) /\
+  name_fold A n = (par (xorb (inv2 n) (inv2 (nm A (name_key A n)))), name_key A n).
+Proof. exact name_fold_closed. Qed.
+Print Assumptions C14_ordered_product_any_spelling.
+
+(* accessor clause, one algebra: _blade2canon on any duplicate-free spelling n finds the table's spelling
+   c of the same generators and a swap count sw with  e_n1 e_n2 .. = (-1)^sw e_c *)
+Theorem C14_blade_lookup_parity : forall A, wf_alg A = true ->
+  forall n, NoDup n -> (forall g, In g n -> In g (alg_vecs A)) ->
+  exists c sw K,
+    blade2canon A n = (Some c, sw) /\ canon2bin A c = Some K /\ bin2canon A K = Some c /\
+    Permutation n c /\ name_fold A n = (par (Z.odd sw), K).
+Proof. exact blade2canon_spec. Qed.
+Print Assumptions C14_blade_lookup_parity.
+
+(* the default-basis algebra of the same signature and start index is an instance of D *)
+Theorem C14_default_is_instance : forall A graded,
+  let D := mk_default (a_sig A) (a_start A) graded in a_sig A = a_sig D /\ a_start A = a_start D.
+Proof. exact default_instance. Qed.
+Print Assumptions C14_default_is_instance.
+
+(* phi on a basis blade IS the ordered product of its generators taken in D; +-1, never 0; the spelling
+   in D of the image has the same generators *)
+Theorem C14_phi_is_ordered_product : forall A D, wf_alg A = true -> wf_alg D = true ->
+  a_sig A = a_sig D -> a_start A = a_start D ->
+  forall I, 0 <= I < alg_len A ->
+  0 <= phi_key A D I < alg_len D /\
+  Permutation (nm A I) (nm D (phi_key A D I)) /\
+  phi_sign A D I = par (xorb (inv2 (nm A I)) (inv2 (nm D (phi_key A D I)))) /\
+  fold_left (fun '(s, k) g => (s * sgn D k (genbit D g), Z.lxor k (genbit D g))) (nm A I) (1, 0)
+    = (phi_sign A D I, phi_key A D I).
+Proof. exact phi_spec. Qed.
+Print Assumptions C14_phi_is_ordered_product.
+
+(* THE TABLE ISOMORPHISM  phi(e_I) phi(e_J) = phi(e_I e_J) *)
+Theorem C14_table_isomorphism : forall A D, wf_alg A = true -> wf_alg D = true ->
+  a_sig A = a_sig D -> a_start A = a_start D ->
+  forall I J, 0 <= I < alg_len A -> 0 <= J < alg_len A ->
+  phi_sign A D I * phi_sign A D J * sgn D (phi_key A D I) (phi_key A D J)
+    = sgn A I J * phi_sign A D (Z.lxor I J).
+Proof. exact table_iso. Qed.
+Print Assumptions C14_table_isomorphism.
+
+Theorem C14_phi_key_xor : forall A D, wf_alg A = true -> wf_alg D = true ->
+  a_sig A = a_sig D -> a_start A = a_start D ->
+  forall I J, 0 <= I < alg_len A -> 0 <= J < alg_len A ->
+  phi_key A D (Z.lxor I J) = Z.lxor (phi_key A D I) (phi_key A D J).
+Proof. exact phi_lxor. Qed.
+Print Assumptions C14_phi_key_xor.
+
+(* phi_key is a bijection of [0, 2^d) (inverse: phi in the other direction, with the same signs),
+   preserves the grade, phi_sign is +-1, the pseudoscalar goes to the pseudoscalar *)
+Theorem C14_phi_bijection : forall A D, wf_alg A = true -> wf_alg D = true ->
+  a_sig A = a_sig D -> a_start A = a_start D ->
+  alg_len A = alg_len D /\
+  phi_key A D (pss_key A) = pss_key D /\
+  forall I, 0 <= I < alg_len A ->
+    0 <= phi_key A D I < alg_len D /\
+    phi_key D A (phi_key A D I) = I /\ phi_sign D A (phi_key A D I) = phi_sign A D I /\
+    popcount (phi_key A D I) = popcount I /\
+    (phi_sign A D I = 1 \/ phi_sign A D I = -1).
+Proof. exact phi_bijection. Qed.
+Print Assumptions C14_phi_bijection.
+
+Section Ring.
+  Variable R : Type.
+  Variables (rO rI : R) (radd rmul rsub : R -> R -> R) (ropp : R -> R).
+  Hypothesis Rth : ring_theory rO rI radd rmul rsub ropp (@eq R).
+  Local Notation O := (mkOps R radd rsub rmul ropp rO rI).
+  Local Notation "x == y" := (Sparse.equiv rO rI radd rmul rsub ropp x y) (at level 70, no associativity).
+  (* relabel A D x: every stored (k, v) becomes (phi_key A D k, sg (phi_sign A D k) * v);
+     mscal c x: every coefficient multiplied by c; sg z: the image of the sign z in the ring *)
+  Local Notation relabel := (relabel R rO rI rmul ropp).
+  Local Notation mscal := (mscal R rmul).
+  Local Notation sg := (Ops.sg rO rI ropp).
+  Local Notation iso A D := (wf_alg A = true /\ wf_alg D = true /\ a_sig A = a_sig D /\ a_start A = a_start D).
+
+  (* relabel maps well-formed multivectors of A to well-formed multivectors of D, coefficient by coefficient *)
+  Theorem C14_relabel_coeff : forall A D, iso A D -> forall (x : mv R), wfmv A x ->
+    wfmv D (relabel A D x) /\
+    forall K, 0 <= K < alg_len A -> coeff O (phi_key A D K) (relabel A D x) = rmul (sg (phi_sign A D K)) (coeff O K x).
+  Proof. exact (relabel_wf_coeff R rO rI radd rmul rsub ropp Rth). Qed.
+
+  (* phi is multiplicative *)
+  Theorem C14_gp : forall A D, iso A D -> forall (x y : mv R), wfmv A x -> wfmv A y ->
+    relabel A D (gp O A x y) == gp O D (relabel A D x) (relabel A D y).
+  Proof. exact (iso_gp R rO rI radd rmul rsub ropp Rth). Qed.
+
+  (* the grade-based products, the commutator products, sum, difference, negation, involutions *)
+  Theorem C14_grade_ops : forall A D, iso A D -> forall (x y : mv R), wfmv A x -> wfmv A y ->
+    relabel A D (op O A x y) == op O D (relabel A D x) (relabel A D y) /\
+    relabel A D (ip O A x y) == ip O D (relabel A D x) (relabel A D y) /\
+    relabel A D (lc O A x y) == lc O D (relabel A D x) (relabel A D y) /\
+    relabel A D (rc O A x y) == rc O D (relabel A D x) (relabel A D y) /\
+    relabel A D (sp O A x y) == sp O D (relabel A D x) (relabel A D y) /\
+    relabel A D (cp O A x y) == cp O D (relabel A D x) (relabel A D y) /\
+    relabel A D (acp O A x y) == acp O D (relabel A D x) (relabel A D y) /\
+    relabel A D (add O A x y) == add O D (relabel A D x) (relabel A D y) /\
+    relabel A D (sub O A x y) == sub O D (relabel A D x) (relabel A D y) /\
+    relabel A D (neg O A x) == neg O D (relabel A D x) /\
+    relabel A D (reverse O A x) == reverse O D (relabel A D x) /\
+    relabel A D (involute O A x) == involute O D (relabel A D x) /\
+    relabel A D (conjugate O A x) == conjugate O D (relabel A D x).
+  Proof. exact (iso_grade_ops R rO rI radd rmul rsub ropp Rth). Qed.
+
+  (* grade selection: the same KeyError for inadmissible grade lists, corresponding parts otherwise *)
+  Theorem C14_grade_selection : forall A D, iso A D -> forall grades (x : mv R), wfmv A x ->
+    match grade_sel O A grades x with
+    | Ok r => exists r', grade_sel O D grades (relabel A D x) = Ok r' /\ relabel A D r == r'
+    | Err e => grade_sel O D grades (relabel A D x) = Err e
+    end.
+  Proof. exact (iso_grade_sel R rO rI radd rmul rsub ropp Rth). Qed.
+
+  (* the dual-type operators: relative to the image of the custom pseudoscalar, i.e. up to the
+     orientation sign o = phi_sign A D (pss_key A); polarity/dual raise the same error *)
+  Theorem C14_duals : forall A D, iso A D -> forall (x y : mv R), wfmv A x -> wfmv A y ->
+    let o := sg (phi_sign A D (pss_key A)) in
+    relabel A D (hodge O A x) == mscal o (hodge O D (relabel A D x)) /\
+    relabel A D (unhodge O A x) == mscal o (unhodge O D (relabel A D x)) /\
+    relabel A D (unpolarity O A x) == mscal o (unpolarity O D (relabel A D x)) /\
+    relabel A D (rp O A x y) == mscal o (rp O D (relabel A D x) (relabel A D y)) /\
+    match polarity O A x with
+    | Ok r => exists r', polarity O D (relabel A D x) = Ok r' /\ relabel A D r == mscal o r'
+    | Err e => polarity O D (relabel A D x) = Err e
+    end /\
+    (forall k, match dual O A k x with
+               | Ok r => exists r', dual O D k (relabel A D x) = Ok r' /\ relabel A D r == mscal o r'
+               | Err e => dual O D k (relabel A D x) = Err e
+               end) /\
+    (forall k, match undual O A k x with
+               | Ok r => exists r', undual O D k (relabel A D x) = Ok r' /\ relabel A D r == mscal o r'
+               | Err e => undual O D k (relabel A D x) = Err e
+               end).
+  Proof. exact (iso_duals R rO rI radd rmul rsub ropp Rth). Qed.
+
+  (* every generated product whose sign function, filter and output key correspond under phi up to a
+     constant sign c corresponds on multivectors up to c (gp, the filtered products and rp are instances) *)
+  Theorem C14_generic_product : forall A D, wf_alg A = true -> wf_alg D = true -> a_sig A = a_sig D -> a_start A = a_start D ->
+    forall (sfA sfD : Z -> Z -> Z) (fA fD : option (Z -> Z -> Z -> bool)) (koA koD : Z -> Z -> Z) (c : Z),
+    c = 1 \/ c = -1 ->
+    (forall a b, 0 <= a < alg_len A -> 0 <= b < alg_len A ->
+       0 <= koA a b < alg_len A /\ koD (phi_key A D a) (phi_key A D b) = phi_key A D (koA a b)) ->
+    (forall a b, 0 <= a < alg_len A -> 0 <= b < alg_len A ->
+       accepts fD (phi_key A D a) (phi_key A D b) (koD (phi_key A D a) (phi_key A D b)) = accepts fA a b (koA a b)) ->
+    (forall a b, 0 <= a < alg_len A -> 0 <= b < alg_len A ->
+       phi_sign A D a * phi_sign A D b * sfD (phi_key A D a) (phi_key A D b) = c * sfA a b * phi_sign A D (koA a b)) ->
+    forall (x y : mv R), wfmv A x -> wfmv A y ->
+    relabel A D (canon_sort A (codegen_product O sfA fA koA x y))
+    == mscal (sg c) (canon_sort D (codegen_product O sfD fD koD (relabel A D x) (relabel A D y))).
+  Proof. exact (relabel_product R rO rI radd rmul rsub ropp Rth). Qed.
+
+  (* accessor clause: the coefficient of a blade spelled with any duplicate-free sequence of generators
+     (x.e31, x.e13, ..: the canonical blade found by _blade2canon, negated for an odd swap count) is the
+     same before and after relabelling; never "not in the algebra" *)
+  Theorem C14_accessors : forall A D, iso A D -> forall n (x : mv R),
+    NoDup n -> (forall g, In g n -> In g (alg_vecs A)) -> wfmv A x ->
+    exists v, spelled_coeff R rO ropp A n x = Some v /\ spelled_coeff R rO ropp D n (relabel A D x) = Some v.
+  Proof. exact (iso_spelled_coeff R rO rI radd rmul rsub ropp Rth). Qed.
+End Ring.
+Print Assumptions C14_relabel_coeff.
+Print Assumptions C14_gp.
+Print Assumptions C14_grade_ops.
+Print Assumptions C14_grade_selection.
+Print Assumptions C14_duals.
+Print Assumptions C14_generic_product.
+Print Assumptions C14_accessors.
+
+(* non-vacuity: 3DPGA against the default basis of the same signature: phi_sign = -1 on e31, e021, e032,
+   the table isomorphism evaluated on all 256 pairs; Cl(1,1) with pseudoscalar e21: orientation o = -1 *)
+Theorem C14_instance_3dpga :
+  wf_alg ex_pga3d = true /\ wf_alg ex_D = true /\ a_sig ex_pga3d = a_sig ex_D /\ a_start ex_pga3d = a_start ex_D /\
+  map (fun I => (phi_key ex_pga3d ex_D I, phi_sign ex_pga3d ex_D I)) (Alg.zrange 16)
+  = [(0, 1); (2, 1); (4, 1); (6, 1); (8, 1); (10, -1); (12, 1); (14, 1);
+     (1, 1); (3, 1); (5, 1); (7, -1); (9, 1); (11, 1); (13, -1); (15, 1)] /\
+  table_iso_b ex_pga3d ex_D = true /\
+  phi_sign ex_A2 ex_D2 (pss_key ex_A2) = -1 /\ table_iso_b ex_A2 ex_D2 = true.
+Proof. exact ex_instances. Qed.
+Print Assumptions C14_instance_3dpga.
